@@ -2,7 +2,6 @@ package c12
 
 import (
 	"fmt"
-	"os"
 	"math"
 	"math/big"
 	"math/cmplx"
@@ -148,7 +147,8 @@ func ckksScale(r *eng.Rand, lg int) (rlwe.Scale, float64) {
 }
 
 // stepBudget returns the slot-domain error bound after one transformation.
-//   errIn: bound on |v_model - v_true| before the step, vmax: bound on |v_true|.
+//
+//	errIn: bound on |v_model - v_true| before the step, vmax: bound on |v_true|.
 func (k *ckksCtx) stepBudget(lt planLT, n1, cols int, decompLevel, levelP int, sIn, sLT float64, errIn, vmax, dmax, absSum float64) float64 {
 	rp := k.params.GetRLWEParameters()
 	N := float64(k.params.N())
@@ -587,9 +587,6 @@ func (k *ckksCtx) program(r *eng.Rand, pi int) {
 		c.Count("precision_measurements", 1)
 		c.Max("max_err_log2_x10_ckks", int64(10*log2(worst)))
 		c.Max("max_budget_log2_x10_ckks", int64(10*log2(ex.budget)))
-		if os.Getenv("C12_DEBUG") != "" && worst > 0 && log2(worst)-log2(ex.budget) > -12 {
-			fmt.Fprintf(os.Stderr, "TIGHT %.1f vs %.1f: %+v\n", log2(worst), log2(ex.budget), desc)
-		}
 		if worst > 0 && worst <= ex.budget {
 			c.Max("max_err_over_budget_log2_x10_plus1000_ckks_passing", 1000+int64(10*(log2(worst)-log2(ex.budget))))
 		}
